@@ -56,7 +56,6 @@ func runC01(ctx *core.Ctx, unit int) {
 	})
 }
 
-
 // checkC01 pushes one canonical source through every entry point.
 func checkC01(src string, withDir bool) core.Outcome {
 	type ep struct {
